@@ -162,9 +162,10 @@ def run(ck):
                     e = orc[1] + b"/" + name
                     if added or changed or not all(x == e or x.startswith(e + b"/") for x in removed):
                         ck.violation("C13: a failing remove_all changed something outside the named subtree", dict(desc, subtree=e.decode("latin1")))
-                    elif len(orc) == 3 and orc[2] == 0o040000 and b"/" not in name and name != b"":
+                    elif len(orc) == 3 and orc[2] == 0o040000 and b"/" not in name and name != b"" and len(name) <= 255:
                         # the kernel resolves the parent to a directory and the final name is a plain one: whatever is (or is not)
-                        # there can be removed by this caller (root), so the call has no reason to fail
+                        # there can be removed by this caller (root), so the call has no reason to fail (a name longer than
+                        # NAME_MAX is answered ENAMETOOLONG by the kernel and reported as such: no reason to succeed either)
                         ck.violation("C13: remove_all failed although its parent resolves in-root and the final name is a plain one",
                                      dict(desc, subtree=e.decode("latin1"), existed=e in before))
                 elif added or removed or changed:
